@@ -149,8 +149,31 @@ pub fn random_points(r: &mut Rng, n: usize, mixed_epochs: bool) -> Vec<[f64; 4]>
 
 pub fn generate(g: &mut Gen, thorough: bool) {
     let n = if thorough { 20000 } else { 1500 };
-    for _ in 0..n {
-        let h = random_set(&mut g.rng);
+    for k in 0..n {
+        let mut h = random_set(&mut g.rng);
+        // parameter sets whose only rate is one of the seven (a set is dynamic as soon as any rate is not zero), and
+        // sets with every static parameter zero but the rates
+        if h.dynamic() && k % 5 == 0 {
+            let keep = (k / 5) % 7;
+            for i in 0..3 {
+                if keep != i {
+                    h.dt[i] = 0.0;
+                }
+                if keep != 3 + i {
+                    h.dr[i] = 0.0;
+                }
+            }
+            if keep != 6 {
+                h.ds = 0.0;
+            } else if h.ds == 0.0 {
+                h.ds = 0.05;
+            }
+            if (k / 35) % 2 == 1 {
+                h.t = [0.0; 3];
+                h.r = [0.0; 3];
+                h.s = 0.0;
+            }
+        }
         let npts = 1 + g.rng.below(6);
         let pts = random_points(&mut g.rng, npts, true);
         let data = data_of(&pts);
